@@ -504,9 +504,13 @@ def r6_chords(ctx):
         # export with the caller's keywords
         comps = [n for n in walk_local(ch.node) if isinstance(n, (ast.GeneratorExp, ast.ListComp)) and len(n.generators) == 1
                  and src(n.generators[0].iter) == 'self.notes_tokens']
-        if not comps:
+        partial_ = [n for n in walk_local(ch.node) if isinstance(n, (ast.For, ast.comprehension)) and 'self.notes_tokens' in src(n.iter)
+                    and src(n.iter) != 'self.notes_tokens']
+        if not comps and not partial_:
             raise AnalysisError(f'{ch.loc}: ChordToken.export is neither a loop nor a comprehension over self.notes_tokens')
-        ok = len(comps) == 1 and not comps[0].generators[0].ifs and isinstance(comps[0].generators[0].target, ast.Name)
+        if not comps:
+            comps = [None]      # iterates a part / a rearrangement of the notes: recognised, and not all the notes
+        ok = len(comps) == 1 and comps[0] is not None and not comps[0].generators[0].ifs and isinstance(comps[0].generators[0].target, ast.Name)
         if ok:
             v = comps[0].generators[0].target.id
             calls = [c for c in ast.walk(comps[0].elt) if isinstance(c, ast.Call) and isinstance(c.func, ast.Attribute) and c.func.attr == 'export'
